@@ -207,6 +207,10 @@ def main : IO Unit := jsonDriver fun j => do
     pure (Json.mkObj [("r", match parseQsl (← fieldT j "s") with
       | some ps => pairsJson ps
       | none => Json.null)])
+  | "urljoin" => do
+    pure (Json.mkObj [("r", match urljoin (← fieldT j "base") (← fieldT j "s") with
+      | .ok r => jt r
+      | .error _ => Json.str "outside")])
   | "bracket" => do pure (Json.mkObj [("r", toJson (checkBracketedHost (← fieldT j "s")))])
   | "unquote" => do pure (Json.mkObj [("r", jot (unquote (← fieldT j "s")))])
   | "unquote_plus" => do pure (Json.mkObj [("r", jot (unquotePlus (← fieldT j "s")))])
